@@ -83,8 +83,11 @@ Definition regions_ok (rs : list region) : Prop := forall r, In r rs -> rg_start
 Section Stream.
   Variable S : Type.
   Variable cb : S -> list N -> S.
-  Hypothesis cb_app : forall s a b, cb (cb s a) b = cb s (a ++ b).
-  Hypothesis cb_nil : forall s, cb s [] = s.
+  (* the streaming law may hold only on the reachable states: an invariant `inv` kept by the callback *)
+  Variable inv : S -> Prop.
+  Hypothesis cb_app : forall s a b, inv s -> cb (cb s a) b = cb s (a ++ b).
+  Hypothesis cb_inv : forall s a, inv s -> inv (cb s a).
+  Hypothesis cb_nil : forall s, inv s -> cb s [] = s.
 
   Definition lift (s : S) (o : option (list N)) : ores S :=
     match o with Some t => OrOk (cb s t) | None => OrNone end.
@@ -93,11 +96,11 @@ Section Stream.
   Proof. intros a b H. unfold checked_add. destruct (a + b <=? umax) eqn:E; [reflexivity|lia]. Qed.
 
   Lemma frag_loop_collect : forall rs pos end_ s,
-    regions_ok rs -> pos < end_ ->
+    inv s -> regions_ok rs -> pos < end_ ->
     frag_loop cb true rs pos end_ true s = lift s (collect rs pos (end_ - pos)).
   Proof.
-    induction rs as [|r rs IH]; intros pos end_ s Hok Hlt; cbn [frag_loop collect].
-    - cbn. now rewrite cb_nil.
+    induction rs as [|r rs IH]; intros pos end_ s Hi Hok Hlt; cbn [frag_loop collect].
+    - cbn. now rewrite cb_nil by assumption.
     - assert (Hr : rg_start r + rg_len r <= umax) by (apply Hok; now left).
       assert (Hok' : regions_ok rs) by (intros x Hx; apply Hok; now right).
       cbn [andb]. rewrite N.eqb_sym.
@@ -116,7 +119,7 @@ Section Stream.
           unfold avail, is_short. rewrite Hd. rewrite firstn_nil.
           change (nlen (@nil N)) with 0.
           destruct (want <=? 0) eqn:E4; [unfold want in E4; lia|].
-          assert (0 <? rg_len r = true) as -> by lia. cbn. now rewrite cb_nil.
+          assert (0 <? rg_len r = true) as -> by lia. cbn. now rewrite cb_nil by assumption.
         * rewrite slice_ok by (unfold flen in *; lia).
           rewrite N.sub_0_r. cbn [skipn N.to_nat].
           change (skipn (N.to_nat 0) (rg_data r)) with (rg_data r).
@@ -136,20 +139,20 @@ Section Stream.
                 unfold want in *. lia.
              ++ destruct (want <=? N.min (rg_len r) flen) eqn:E6; [unfold want in *; lia|].
                 unfold is_short. fold flen. assert (flen <? rg_len r = false) as -> by lia.
-                rewrite IH by (assumption || lia).
+                rewrite IH by (assumption || lia || (apply cb_inv; assumption)).
                 replace (end_ - (rg_start r + rg_len r)) with (want - rg_len r) by (unfold want; lia).
                 assert (Hd : firstn (N.to_nat (N.min (N.min (rg_len r) want) flen)) (rg_data r) = avail r).
                 { unfold avail. f_equal. unfold want in *. lia. }
                 rewrite Hd.
                 destruct (collect rs (rg_start r + rg_len r) (want - rg_len r)) as [t|]; cbn [lift];
-                  [now rewrite cb_app|reflexivity].
+                  [now rewrite cb_app by assumption|reflexivity].
   Qed.
 
   Lemma frag_loop_spec : forall rs start end_ s,
-    regions_ok rs -> start <= end_ ->
+    inv s -> regions_ok rs -> start <= end_ ->
     frag_loop cb true rs start end_ false s = lift s (spec_frag rs start (end_ - start)).
   Proof.
-    induction rs as [|r rs IH]; intros start end_ s Hok Hle; cbn [frag_loop spec_frag].
+    induction rs as [|r rs IH]; intros start end_ s Hi Hok Hle; cbn [frag_loop spec_frag].
     - reflexivity.
     - assert (Hr : rg_start r + rg_len r <= umax) by (apply Hok; now left).
       assert (Hok' : regions_ok rs) by (intros x Hx; apply Hok; now right).
@@ -188,7 +191,7 @@ Section Stream.
                 f_equal. unfold n, k in *. lia.
              ++ destruct (n <=? nlen (skipn (N.to_nat k) (avail r))) eqn:E6; [unfold n, k in *; lia|].
                 unfold is_short. fold flen. assert (flen <? rg_len r = false) as -> by lia.
-                rewrite frag_loop_collect by (assumption || lia).
+                rewrite frag_loop_collect by (assumption || lia || (apply cb_inv; assumption)).
                 replace (end_ - (rg_start r + rg_len r)) with (n - nlen (skipn (N.to_nat k) (avail r)))
                   by (unfold n, k in *; lia).
                 assert (Hd : firstn (N.to_nat (N.min (N.min (rg_len r) (end_ - rg_start r)) flen - k))
@@ -196,18 +199,27 @@ Section Stream.
                 { unfold avail. rewrite skipn_firstn_comm. f_equal. unfold k in *. lia. }
                 rewrite Hd.
                 destruct (collect rs (rg_start r + rg_len r) (n - nlen (skipn (N.to_nat k) (avail r)))) as [t|];
-                  cbn [lift]; [now rewrite cb_app|reflexivity].
+                  cbn [lift]; [now rewrite cb_app by assumption|reflexivity].
   Qed.
 
-  (* C16_on_range_fragmented *)
-  Lemma on_range_frag : forall rs start end_ s,
-    regions_ok rs -> start <= end_ ->
+  Lemma on_range_frag_inv : forall rs start end_ s,
+    inv s -> regions_ok rs -> start <= end_ ->
     on_range cb (Frag true rs) start end_ s = lift s (spec_frag rs start (end_ - start)).
   Proof.
-    intros rs start end_ s Hok Hle. unfold on_range, on_range_gen.
+    intros rs start end_ s Hi Hok Hle. unfold on_range, on_range_gen.
     destruct (end_ <? start) eqn:E; [lia|]. now apply frag_loop_spec.
   Qed.
 End Stream.
+
+(* C16_on_range_fragmented: the law holding on all states *)
+Lemma on_range_frag : forall S (cb : S -> list N -> S),
+  (forall s a b, cb (cb s a) b = cb s (a ++ b)) -> (forall s, cb s [] = s) ->
+  forall rs start end_ s, regions_ok rs -> start <= end_ ->
+    on_range cb (Frag true rs) start end_ s = lift S cb s (spec_frag rs start (end_ - start)).
+Proof.
+  intros S cb Ha Hn rs start end_ s Hok Hle.
+  apply (on_range_frag_inv S cb (fun _ => True)); auto.
+Qed.
 
 (* ------------------------------------------------------------------ 3. adjacent regions = contiguous bytes *)
 Fixpoint adjacent (base : N) (rs : list region) : Prop :=
